@@ -181,6 +181,9 @@ pub struct AOp {
     pub unchecked: bool,
     pub arg: u32,
     pub threads: usize,
+    /// fake only: "" | "mprotect" (the next mprotect is refused) | "enomem" (no executable mapping)
+    #[serde(default)]
+    pub fault: String,
 }
 
 #[derive(Serialize, Deserialize, Clone, Debug, PartialEq)]
@@ -214,9 +217,12 @@ pub fn generate(profile: &str, seed: u64, index: u64) -> AsyncScenario {
             if rng.chance(2, 5) {
                 let func = if !faked.is_empty() && rng.chance(1, 3) { *rng.pick(&faked) } else { rng.below(NF as u64) as usize };
                 let refake = faked.contains(&func);
-                let op = AOp { op: "fake".into(), func, site: rng.below(2) as usize, unchecked: rng.chance(1, 3), arg: 0, threads: 0 };
-                classes.push(format!("fake-f{func}-{}{}", if op.unchecked { "unchecked" } else { "checked" }, if refake { "-refake" } else { "" }));
-                faked.push(func);
+                let fault = if rng.chance(1, 8) { *rng.pick(&["mprotect", "mprotect", "enomem"]) } else { "" };
+                let op = AOp { op: "fake".into(), func, site: rng.below(2) as usize, unchecked: rng.chance(1, 3), arg: 0, threads: 0, fault: fault.into() };
+                classes.push(format!("fake-f{func}-{}{}{}", if op.unchecked { "unchecked" } else { "checked" }, if refake { "-refake" } else { "" }, if fault.is_empty() { String::new() } else { format!("-{fault}") }));
+                if fault.is_empty() {
+                    faked.push(func);
+                }
                 ops.push(op);
             } else {
                 // await: bias to faked functions and their siblings
@@ -241,7 +247,7 @@ pub fn generate(profile: &str, seed: u64, index: u64) -> AsyncScenario {
                 if threads > 0 {
                     classes.push("await-from-other-threads".into());
                 }
-                ops.push(AOp { op: "await".into(), func, site: 0, unchecked: false, arg: rng.below(1000) as u32, threads });
+                ops.push(AOp { op: "await".into(), func, site: 0, unchecked: false, arg: rng.below(1000) as u32, threads, fault: String::new() });
             }
         }
         let exit_panic = rng.chance(1, 6);
@@ -344,10 +350,23 @@ pub fn execute(sc: &AsyncScenario, sh: &Shared) -> Value {
                         f2.borrow_mut().push(format!("at the {point} boundary an await on another thread gave {:?} (original body ran {ran}x); allowed {:?}", got, allowed));
                     }
                 })));
+                let mut fl = interpose::Faults::default();
+                match op.fault.as_str() {
+                    "mprotect" => fl.mprotect_fail_next = true,
+                    "enomem" => fl.enomem_all = true,
+                    _ => {}
+                }
+                interpose::set_faults(fl);
                 interpose::arm(true);
                 let r = catch_unwind(AssertUnwindSafe(|| install(&mut inj, op.func, op.site, op.unchecked)));
                 interpose::arm(false);
                 interpose::set_observer(None);
+                let fl = interpose::faults();
+                interpose::set_faults(interpose::Faults::default());
+                let refused = fl.fired_enomem > 0 || fl.fired_mprotect > 0;
+                if refused {
+                    *probes.entry(format!("os_refusal_during_async_fake[{}]", op.fault)).or_insert(0) += 1;
+                }
                 awaits += obs_n.get();
                 if obs_n.get() > 0 {
                     *probes.entry("awaits_interleaved_with_installation".into()).or_insert(0) += obs_n.get();
@@ -357,6 +376,12 @@ pub fn execute(sc: &AsyncScenario, sh: &Shared) -> Value {
                     v(tag, &["C14", "C02"], format!("lifetime {li} op {oi} (fake #{} site {}): {f}", op.func, op.site));
                 }
                 match r {
+                    Ok(()) if refused => v("install-succeeded-despite-refused-syscall", &["C05"], format!("lifetime {li} op {oi}: the OS refused ({}) yet faking async function #{} reported success", op.fault, op.func)),
+                    Err(_) if refused => {
+                        // a refused installation changes nothing: the function keeps the behaviour it had
+                        awaits += 1;
+                        check_await(li, oi, op.func, 17, &model, &mut digest, false);
+                    }
                     Ok(()) => {
                         fakes += 1;
                         if !model[op.func].is_empty() {
